@@ -1057,6 +1057,14 @@ func (g *gen) piece(depth int) {
 		}
 		g.tag("<%=", g.expr(kAny, 2, "output"), "%>")
 	case 3:
+		if g.pct("arrayplus", 8) {
+			// `array + value` on a slice of the caller's that has spare capacity (the result is not used: plush
+			// hands back something only `let` accepts)
+			g.feat("array_plus_on_caller_slice_with_spare_capacity")
+			g.frames = 0
+			g.tag("<%", "let "+g.fresh("ap")+" = xcap + "+g.operand(kInt, 1, "infix-right:+"), "%>")
+			break
+		}
 		g.feat("let")
 		k := []kind{kInt, kStr, kBool}[g.intn("letkind", 0, 2)]
 		name := g.fresh("v")
